@@ -34,10 +34,22 @@
 (***************************************************************************)
 EXTENDS Integers, Sequences, FiniteSets, TLC, Json
 
-CONSTANTS MaxNvar, MaxNs, Drifts, WithVerr, Targets
+CONSTANTS MaxNvar, MaxNs, Drifts, WithVerr, Targets,
+          Ndims,       \* space dimensions explored (subset of 1..3)
+          BigNs        \* larger neighbourhoods, explored with every value defined only (needed by high-order drifts)
 
-\* number of drift functions per variable
-NBfl(d) == CASE d = "SK" -> 0 [] d = "OK" -> 1 [] d = "LIN" -> 3 [] d = "EXT" -> 2 [] d = "QUAD" -> 6
+\* drift functions per variable: monomials (powers of the coordinates, in the order of
+\* DriftFactory::createDriftListFromIRF) and external drift
+Mono(a, b, c) == [kind |-> "mono", p |-> <<a, b, c>>]
+Funcs(d, nd) ==
+  CASE d = "SK"  -> <<>>
+    [] d = "OK"  -> <<Mono(0, 0, 0)>>
+    [] d = "EXT" -> <<Mono(0, 0, 0), [kind |-> "ext", p |-> <<0, 0, 0>>]>>
+    [] d = "LIN" -> (<<Mono(0, 0, 0), Mono(1, 0, 0)>> \o (IF nd >= 2 THEN <<Mono(0, 1, 0)>> ELSE <<>>)
+                                                     \o (IF nd >= 3 THEN <<Mono(0, 0, 1)>> ELSE <<>>))
+    [] d = "QUAD" -> (<<Mono(0, 0, 0), Mono(1, 0, 0), Mono(2, 0, 0)>>
+                      \o (IF nd >= 2 THEN <<Mono(0, 1, 0), Mono(1, 1, 0), Mono(0, 2, 0)>> ELSE <<>>))
+NBflD(d, nd) == Len(Funcs(d, nd))
 
 Zero == <<0, 0, 0, 0, 0>>
 
@@ -45,13 +57,21 @@ VARIABLES cfg, built
 vars == <<cfg, built>>
 
 BoolSeqs(n) == [1..n -> BOOLEAN]
-Configs == { [nvar |-> nv, ns |-> ns, def |-> def, drift |-> d, verr |-> ve, target |-> tg] :
-               nv \in 1..MaxNvar, ns \in 1..MaxNs, d \in Drifts, ve \in WithVerr, tg \in Targets,
-               def \in [1..MaxNs -> [1..MaxNvar -> BOOLEAN]] }
+MaxS == IF BigNs = {} THEN MaxNs ELSE CHOOSE m \in BigNs \cup {MaxNs} : \A x \in BigNs \cup {MaxNs} : x <= m
+NoneDef == [v \in 1..MaxNvar |-> FALSE]
+Configs == { [nvar |-> nv, ns |-> ns, def |-> [s \in 1..MaxS |-> IF s <= MaxNs THEN d0[s] ELSE NoneDef],
+              drift |-> d, verr |-> ve, target |-> tg, ndim |-> nd] :
+               nv \in 1..MaxNvar, ns \in 1..MaxNs, d \in Drifts, ve \in WithVerr, tg \in Targets, nd \in Ndims,
+               d0 \in [1..MaxNs -> [1..MaxNvar -> BOOLEAN]] }
+           \cup
+           { [nvar |-> nv, ns |-> ns, def |-> [s \in 1..MaxS |-> [v \in 1..MaxNvar |-> s <= ns /\ v <= nv]],
+              drift |-> d, verr |-> ve, target |-> tg, ndim |-> nd] :
+               nv \in 1..MaxNvar, ns \in BigNs, d \in Drifts, ve \in WithVerr, tg \in Targets, nd \in Ndims }
 \* canonical: flags beyond ns / nvar are FALSE; every variable has at least one defined sample;
 \* every sample has at least one defined variable (a fully undefined sample is not in the neighbourhood)
 Canonical(c) ==
-  /\ \A s \in 1..MaxNs, v \in 1..MaxNvar : (s > c.ns \/ v > c.nvar) => ~c.def[s][v]
+  /\ \A s \in 1..MaxS, v \in 1..MaxNvar : (s > c.ns \/ v > c.nvar) => ~c.def[s][v]
+  /\ (c.drift = "QUAD" => c.ndim <= 2)
   /\ \A v \in 1..c.nvar : \E s \in 1..c.ns : c.def[s][v]
   /\ \A s \in 1..c.ns : \E v \in 1..c.nvar : c.def[s][v]
 
@@ -63,7 +83,7 @@ DataEqs(c) == LET F[k \in 0..(c.nvar * c.ns)] ==
                              s == ((k - 1) % c.ns) + 1
                          IN IF c.def[s][v] THEN Append(F[k-1], [k |-> "d", s |-> s, v |-> v, l |-> 0]) ELSE F[k-1]
               IN F[c.nvar * c.ns]
-DriftEqs(c) == LET nb == NBfl(c.drift) IN
+DriftEqs(c) == LET nb == NBflD(c.drift, c.ndim) IN
                [k \in 1..(c.nvar * nb) |-> [k |-> "f", s |-> 0, v |-> ((k - 1) \div nb) + 1, l |-> ((k - 1) % nb) + 1]]
 Eqs(c) == DataEqs(c) \o DriftEqs(c)
 
@@ -86,10 +106,10 @@ DefSystem(c) == LET eqs == Eqs(c) n == Len(eqs) IN
 -----------------------------------------------------------------------------
 (* Algorithm (transcription)                                                  *)
 \* full isotopic system: index (iech, ivar) -> ivar * nech + iech, drift equation ib -> nvar * nech + ib
-NeqFull(c) == c.nvar * c.ns + c.nvar * NBfl(c.drift)
+NeqFull(c) == c.nvar * c.ns + c.nvar * NBflD(c.drift, c.ndim)
 FullEq(c, i) == IF i <= c.nvar * c.ns
                 THEN [k |-> "d", s |-> ((i - 1) % c.ns) + 1, v |-> ((i - 1) \div c.ns) + 1, l |-> 0]
-                ELSE LET ib == i - c.nvar * c.ns  nb == NBfl(c.drift) IN
+                ELSE LET ib == i - c.nvar * c.ns  nb == NBflD(c.drift, c.ndim) IN
                      [k |-> "f", s |-> 0, v |-> ((ib - 1) \div nb) + 1, l |-> ((ib - 1) % nb) + 1]
 \* _lhsCalcul: covariance part for every pair of (sample, variable), verr on the diagonal terms;
 \* drift part evalDriftValue(sample, ivar, ib) = f_l(sample) when the equation belongs to ivar
@@ -115,7 +135,7 @@ Symmetric == LET s == DefSystem(cfg) n == Len(s.eqs) IN
              \A i, j \in 1..n : LET a == s.lhs[i][j] b == s.lhs[j][i] IN
                 a[1] = b[1] /\ (a[1] = 1 => (a[2] = b[3] /\ a[3] = b[2] /\ a[4] = b[5] /\ a[5] = b[4]))
                             /\ (a[1] \in {2, 3} => a = b)
-Count == Len(Eqs(cfg)) = Cardinality({<<s, v>> \in (1..cfg.ns) \X (1..cfg.nvar) : cfg.def[s][v]}) + cfg.nvar * NBfl(cfg.drift)
+Count == Len(Eqs(cfg)) = Cardinality({<<s, v>> \in (1..cfg.ns) \X (1..cfg.nvar) : cfg.def[s][v]}) + cfg.nvar * NBflD(cfg.drift, cfg.ndim)
 \* unknown mean: the universality rows make the weights of each variable reproduce each drift function
 HasUniversality == cfg.drift = "SK" \/ \A v \in 1..cfg.nvar : \E i \in 1..Len(Eqs(cfg)) : Eqs(cfg)[i].k = "f" /\ Eqs(cfg)[i].v = v
 
@@ -125,7 +145,7 @@ HasUniversality == cfg.drift = "SK" \/ \A v \in 1..cfg.nvar : \E i \in 1..Len(Eq
 (* configuration.                                                             *)
 
 \* Relabelling: reversing the order of the samples permutes equations and terms consistently
-Rev(c) == [c EXCEPT !.def = [s \in 1..MaxNs |-> IF s <= c.ns THEN c.def[c.ns + 1 - s] ELSE c.def[s]]]
+Rev(c) == [c EXCEPT !.def = [s \in 1..MaxS |-> IF s <= c.ns THEN c.def[c.ns + 1 - s] ELSE c.def[s]]]
 RelabelS(c, s) == IF s = 0 THEN 0 ELSE c.ns + 1 - s
 RelabelTerm(c, t) == CASE t[1] \in {1, 2} -> <<t[1], t[2], t[3], RelabelS(c, t[4]), RelabelS(c, t[5])>>
                        [] t[1] = 3 -> <<3, t[2], RelabelS(c, t[3]), 0, 0>>
@@ -160,7 +180,7 @@ ExactLaw ==
 \* for v0 and zero for the other variables:  sum_i lambda_i f_l(x_i) = f_l(target)
 UniversalityLaw ==
   LET a == DefSystem(cfg)  n == Len(a.eqs) IN
-  \A v0 \in 1..cfg.nvar : \A l \in 1..NBfl(cfg.drift) : \E i \in 1..n :
+  \A v0 \in 1..cfg.nvar : \A l \in 1..NBflD(cfg.drift, cfg.ndim) : \E i \in 1..n :
      /\ a.eqs[i].k = "f" /\ a.eqs[i].v = v0 /\ a.eqs[i].l = l
      /\ a.rhs[i][v0] = <<5, l, 0, 0, 0>>
      /\ \A w \in (1..cfg.nvar) \ {v0} : a.rhs[i][w] = Zero
@@ -168,6 +188,7 @@ UniversalityLaw ==
 
 Emit == ~built \/ PrintT(ToJson([cfg |-> [nvar |-> cfg.nvar, ns |-> cfg.ns,
                                           def |-> [s \in 1..cfg.ns |-> [v \in 1..cfg.nvar |-> cfg.def[s][v]]],
-                                          drift |-> cfg.drift, verr |-> cfg.verr, target |-> cfg.target],
+                                          drift |-> cfg.drift, verr |-> cfg.verr, target |-> cfg.target, ndim |-> cfg.ndim,
+                                          funcs |-> Funcs(cfg.drift, cfg.ndim)],
                                   sys |-> DefSystem(cfg)]))
 =============================================================================
